@@ -21,6 +21,7 @@ type LayoutCfg struct {
 	NoIface        bool // files without any converter interface (C17 negative)
 	DoclessIface   float64
 	NotationsIface bool
+	SameNames      bool // same method name + same :recv identifier under different receiver types (C17)
 }
 
 // LayoutGen generates one layout scenario.
@@ -210,6 +211,11 @@ func GenLayout(r *rand.Rand, cfg LayoutCfg, id, pkgRel string) *Scenario {
 		g.vec = append(g.vec, "no-iface")
 	}
 	convergenUsed := false
+	sameName := ""
+	if cfg.SameNames && nIf >= 2 && g.chance(0.35) {
+		sameName = g.methodName()
+		g.vec = append(g.vec, "same-name-recv")
+	}
 	var typeDecls strings.Builder
 	for i := 0; i < nIf; i++ {
 		if cfg.Surround {
@@ -278,9 +284,13 @@ func GenLayout(r *rand.Rand, cfg LayoutCfg, id, pkgRel string) *Scenario {
 			}
 		}
 		var body strings.Builder
-		oneLine := cfg.OneLine && nm == 1 && g.chance(0.35)
+		oneLine := cfg.OneLine && nm == 1 && g.chance(0.35) && sameName == ""
 		for j := 0; j < nm; j++ {
 			m := &Method{Name: g.methodName()}
+			shared := sameName != "" && j == 0
+			if shared {
+				m.Name = sameName
+			}
 			a, b := g.name("A"), g.name("B")
 			fmt.Fprintf(&typeDecls, "type %s struct{ X int }\n\ntype %s struct{ X int }\n\n", a, b)
 			sp, dp := "*", "*"
@@ -295,7 +305,11 @@ func GenLayout(r *rand.Rand, cfg LayoutCfg, id, pkgRel string) *Scenario {
 				m.Src.Name, m.Dst.Name = "in", "out"
 			}
 			m.HasErr = g.chance(0.25)
-			if !oneLine {
+			if shared {
+				// same name, same receiver identifier, different receiver type in every interface
+				m.Notations = append(m.Notations, Notation{Name: "recv", Args: []string{"r"}})
+			}
+			if !oneLine && !shared {
 				if cfg.Comments && g.chance(0.4) {
 					m.DocLines = append(m.DocLines, "// "+g.c("method doc "+m.Name))
 				}
